@@ -68,7 +68,7 @@ static int lastpoll_ready[NFD];	/* revents of the last poll per pool index */
 /* statistics */
 static uint64_t n_cb[3], n_reg[3], n_cancel[3], n_run, n_poll, n_steal,
     n_eexist, n_enoent, n_intr, n_nonzero, n_inside_reg, n_inside_cancel,
-    n_hup_both, n_scan_ge_nfds, n_reset;
+    n_hup_both, n_scan_ge_nfds, n_reset, n_burst;
 
 static void
 lg(const char * fmt, ...)
@@ -460,6 +460,41 @@ act(int a, struct reg * self)
 	}
 }
 
+/*
+ * Many timers at once, then a random half of them cancelled / reset in random
+ * order: the timer queue's heap gets several levels deep and loses elements
+ * from its middle, so records move up and down by more than one level.
+ */
+static void
+timer_burst(void)
+{
+	int first = nregs, n = (int)vh_range(&R, 8, 48), i, k;
+
+	for (i = 0; i < n; i++) {
+		if (vh_chance(&R, 1, 3))
+			do_reg_t(vh_below(&R, 64) * 15625);
+		else
+			do_reg_t(vh_below(&R, 40000));
+	}
+	k = (int)vh_below(&R, (uint64_t)(nregs - first) + 1);
+	for (i = 0; i < k; i++) {
+		struct reg * t = &regs[first + (int)vh_below(&R,
+		    (uint64_t)(nregs - first))];
+
+		if (!t->live || t->kind != K_TIMER)
+			continue;
+		if (vh_chance(&R, 1, 4)) {
+			int rc = events_timer_reset(t->cookie);
+
+			lg("ZT %d %d %llu\n", t->id, rc,
+			    (unsigned long long)simk_now_us);
+			n_reset++;
+		} else
+			do_cancel(t);
+	}
+	n_burst++;
+}
+
 static int
 callback(void * cookie)
 {
@@ -613,6 +648,8 @@ program(uint64_t seed, uint64_t idx)
 				a = A_REG_I + (int)vh_below(&R, 3);
 			act(a, NULL);
 		}
+		if (vh_chance(&R, 1, 60))
+			timer_burst();
 		if (can_run())
 			run_once();
 	}
@@ -691,5 +728,6 @@ main(int argc, char ** argv)
 	    (unsigned long long)n_inside_reg, (unsigned long long)n_inside_cancel,
 	    (unsigned long long)n_hup_both, (unsigned long long)n_scan_ge_nfds,
 	    (unsigned long long)n_reset, (unsigned long long)simk_npoll_eintr);
+	printf("STAT timer_bursts %llu\n", (unsigned long long)n_burst);
 	return (0);
 }
